@@ -15,7 +15,7 @@ ALPHA = [E.DRAIN, E.TURN, E.TIMER, E.START, E.FINISH, E.DISCONNECT, E.FORCE, E.C
 # quick tier: without the events that only add orderings of already covered effects
 ALPHA_Q = [E.DRAIN, E.TURN, E.TIMER, E.FINISH, E.DISCONNECT, E.FORCE, E.CANCEL, E.CONNECT_OK, E.CONNECT_ERR,
            E.D_HELLO, E.D_CONNECT, E.D_GARBAGE, E.D_DISCREQ, E.D_MSG, E.D_BADPAYLOAD, E.EOF, E.RESET,
-           E.WRITEFAIL, E.D_PINGREQ, E.REQUEST]
+           E.WRITEFAIL, E.D_PINGREQ, E.REQUEST, E.RESOLVE_OK]
 ALPHA_FULL = ALPHA
 if shard_int("QA", 0):
     ALPHA = ALPHA_Q
@@ -115,7 +115,7 @@ def _enabled_first(stage: int, noise: int = 0, alpha=None) -> list:
 
 def shards(tier: str) -> list:
     out = []
-    stages = [E.ST_RESOLVING, E.ST_CONNECTING, E.ST_OPENED, E.ST_HELLO_SENT, E.ST_CONNECTED, E.ST_DISCONNECTING]
+    stages = [E.ST_RESOLVING, E.ST_RESOLVING_MDNS, E.ST_CONNECTING, E.ST_OPENED, E.ST_HELLO_SENT, E.ST_CONNECTED, E.ST_DISCONNECTING]
     quick = tier == "quick"
     alpha = ALPHA_Q if quick else ALPHA_FULL
     for st, nz in [(x, 0) for x in stages] + [(E.ST_HELLO_SENT, 1)]:
@@ -126,12 +126,12 @@ def shards(tier: str) -> list:
         for st, nz in [(E.ST_CONNECTING, 0), (E.ST_HELLO_SENT, 0), (E.ST_CONNECTED, 0), (E.ST_DISCONNECTING, 0)]:
             for i, j in E.enabled_pairs(_mk(st, nz), ALPHA_Q):
                 out.append({"fn": "h08_4", "env": {"STAGE": st, "SH0": i, "SH1": j, "NOISE": nz, "QA": 1}, "cond_timeout": 1500, "path_timeout": 60,
-                            "desc": f"stage {E.STAGE_NAMES[st]}, events {E.NAMES[ALPHA_Q[i]]}, {E.NAMES[ALPHA_Q[j]]}, then 2 symbolic events (20-event alphabet); audit after the close"})
+                            "desc": f"stage {E.STAGE_NAMES[st]}, events {E.NAMES[ALPHA_Q[i]]}, {E.NAMES[ALPHA_Q[j]]}, then 2 symbolic events (21-event alphabet); audit after the close"})
     return out
 
 
-BOUNDS = {"quick": "6 lifecycle stages (resolving, connecting, socket opened, hello sent, connected, disconnecting) x 3 events from a 20-event alphabet (thorough: 25 events), incl. trailing device frames in the closing chunk and same-turn combinations",
-          "thorough": "3 events from the 25-event alphabet after every stage plus every sequence of 4 events from the 20-event alphabet after connecting, hello sent, connected, disconnecting"}
+BOUNDS = {"quick": "6 lifecycle stages (resolving, connecting, socket opened, hello sent, connected, disconnecting) x 3 events from a 21-event alphabet (thorough: 25 events), incl. trailing device frames in the closing chunk and same-turn combinations",
+          "thorough": "3 events from the 25-event alphabet after every stage plus every sequence of 4 events from the 21-event alphabet after connecting, hello sent, connected, disconnecting"}
 OUTSIDE = ["sequences longer than the bound", "noise transport (frame-helper close on the noise path is covered by C04)"]
 ASSUMPTIONS = ["SimLoop/SimTransport/FakeSock model of asyncio and the socket (see C05)", "audit runs after the loop has gone quiet without advancing virtual time"]
 EXPLANATION = "C08: after any close: transports and sockets closed, no live timer, no pending API-call task, no write and no subscriber delivery with the connection in CLOSED."
